@@ -8,6 +8,8 @@ Protocol (DESIGN.md section 3):
   that is not a listed known finding is reported as the replay of a VIOLATION; if none is found the
   VIOLATION line ends with no-failing-input-found.
 """
+import os
+os.environ.setdefault("TQDM_DISABLE", "1")
 import argparse, importlib, json, os, sys, time, traceback
 
 sys.path.insert(0, os.path.dirname(os.path.dirname(os.path.abspath(__file__))))
@@ -20,6 +22,8 @@ def load_module(pid):
 
 def run_case(mod, drv, case):
     """returns (impl_obs, model_obs or None)"""
+    if hasattr(mod, "run_both"):
+        return mod.run_both(drv, case)
     iobs = mod.impl(case)
     mobs = None
     if drv is not None:
@@ -140,7 +144,7 @@ def main():
         w = k.get("witness")
         if w is None:
             continue
-        iobs = mod.impl(w)
+        iobs = run_case(mod, None, w)[0]
         fail = mod.oracle(w, iobs)
         if fail and mod.known_match(w, fail, k):
             run.known(f"{k['id']} {k['what']}")
@@ -167,7 +171,7 @@ def main():
         if not failures and hasattr(mod, "search_cases"):
             t1 = time.time()
             for case in mod.search_cases(tier, seed):
-                iobs = mod.impl(case)
+                iobs = run_case(mod, None, case)[0]
                 run.evaluations += 1
                 f = oracle_fail(case, iobs)
                 if f:
@@ -179,8 +183,8 @@ def main():
     for (case, fail, iobs, mobs) in failures[:3]:
         small = case
         if hasattr(mod, "shrink"):
-            small = shrink_case(mod, drv, case, lambda c: bool(oracle_fail(c, mod.impl(c))))
-            iobs = mod.impl(small)
+            small = shrink_case(mod, drv, case, lambda c: bool(oracle_fail(c, run_case(mod, None, c)[0])))
+            iobs = run_case(mod, None, small)[0]
             fail = mod.oracle(small, iobs) or fail
         run.violation({"case": small, "failure": fail, "impl_obs": iobs, "model_obs": mobs,
                        "broken": st.broken, "how_to_replay": f"./check {pid} --replay <this file>"})
